@@ -164,8 +164,15 @@ PROPS = {
         trusted=["as C03"],
         explanation="C06.expired_eq_deleted_spec (whole continuations indistinguishable), expired_outcomes, never_dropped_early on the contract; both I-models inherit them through the C03 refinements",
     ),
+    "C20": dict(
+        lean=["GolibsVerif.Props.C20"],
+        seq=[dict(comp="zip", stateless=True, decisive=lambda d: d["op"].startswith("mon C20"))],
+        rule="cases = calls on the real file system inside a sandbox under /verif/.work: (1) 300 absolute paths over segments {a,b,..,.,empty,'c d',unicode} through filepath.Clean / filepath.Join vs the lexical model; (2) hostile archives built with archive/zip (entry names with '..', absolute names, '.', 'a/..', directory/file clashes in both orders, directory entries, duplicate names, unicode) + 150 (thorough 2000) random archives, with a before/after snapshot of everything three levels above the destination; (3) 60 (600) random trees (depth 0..4, empty/binary/multi-line contents, names with spaces, dots, unicode, *.skip) x filter {all, notskip, none} x recursive x source-directory spelling {abs, abs/, ./rel, rel/, rel}; non-trivial = tree depth >= 2 with a filter rejecting something, or an entry name containing '..' or starting with '/'; distinct by op text",
+        assumptions=["regular files and directories only (no symlinks, permissions, special files)", "the destination directory is an absolute clean path"],
+        trusted=["modelled, not verified: archive/zip codec, the real file system (os.Create/MkdirAll/Walk); path/filepath.Clean/Join/Rel are modelled lexically (`cleanAbs`) and compared with the real functions by the run; entry names are split at '/' by the driver"],
+        explanation="C20.confined (any archive: everything created lies inside the destination), escaping_entry_rejected, roundtrip (exactly the selected files with path and content), target_of_entryName; legacy_escapes is the kernel-checked witness of D11",
+    ),
 }
-
 
 # ------------------------------------------------------------------------------------------------
 # texts for MANIFEST.json (tools/mkmanifest.py)
@@ -192,6 +199,7 @@ MANIFEST_TEXT = {
 }
 
 MANIFEST_TEXT.update({
+    "C20": _t("Lean proof on a lexical path / small file-system model that UnzipToFolder creates files and directories only inside the destination for ANY archive, and that ZipFolder∘UnzipToFolder reproduces exactly the selected files (path and content); tied to files.go by a differential run on a sandboxed real file system (hostile archives, random trees, all filter/recursive/spelling combinations) with Go-side confinement and round-trip monitors", "Lean 4 proofs over a path/file-system model + model/code correspondence on the real file system"),
     "C01": _t("Lean proof of mutual exclusion for the N-process transition system of kvlock.go (any number of goroutines/Lockers/providers, every interleaving at storage-call granularity, cancellation anywhere, unbounded request-lost/reply-lost faults) under the explicit lease assumption; tied to the code by trace refinement: real kvsLock goroutines run under a controlled scheduler and every recorded trace is replayed through the executable model, which is proved sound w.r.t. the transition relation (C01Exec)", "Lean 4 inductive-invariant proof over an N-process transition system + trace refinement of real executions"),
     "C04": _t("Lean proofs on fault-free runs: no residue at quiescence, token/counter exact, no orphan record, deadlock freedom (some caller inside a call can always move when nobody holds), hand-off enabledness, no acquisition after shutdown, failure paths restore the Locker; tie as C01 plus Go-side residue / stuck monitors. Eventual service of every caller rests on a fairness assumption (not mechanised)", "Lean 4 invariant + enabledness proofs + trace refinement of real executions"),
     "C05": _t("Lean proofs: the renewal chain stays alive while the lock is held (under the stated timing assumption; the unrestricted statement is refuted in Lean), leftovers after Unlock are stale and die at their next CAS, a lapsed record lets a waiter acquire, timing margin arithmetic; tie as C01 with scheduler-driven timer firing and a Go-side chain-alive monitor. Real-time behaviour (timers, latency) is runtime and not proved", "Lean 4 invariant proofs (partial: timing assumption explicit) + trace refinement of real executions"),
@@ -202,5 +210,4 @@ NOT_CLAIMED = {
     "C07": "in progress (waiter small-step model + tie not built yet)",
     "C09": "in progress (concurrent LRU model + tie not built yet)",
     "C13": "in progress (worker-pool model + tie not built yet)",
-    "C20": "in progress (zip path model + tie not built yet)",
 }
